@@ -7,13 +7,47 @@ from rdkit import Chem
 from . import common
 
 
+# ----------------------------------------------------------------------------- live schemes and their pattern texts
+_TEXT = {}          # id(MolQuery) -> (MolQuery, RING text it was read from)
+_LIBS = None
+
+
+def _install_text_recorder():
+    """`GroupAdditivityScheme.Load` hands every `connectivity` text to `Read` and keeps only the query object.  The
+    end-to-end model needs the text, so the name `Read` *as the Scheme module sees it* is wrapped: same call, same result,
+    and the (query object, text) pair is remembered.  Nothing else of the load is touched."""
+    import pgradd.GroupAdd.Scheme as M
+    if getattr(M.Read, '_verif_recorder', False):
+        return
+    real = M.Read
+
+    def Read(text, *a, **kw):
+        q = real(text, *a, **kw)
+        _TEXT[id(q)] = (q, text)
+        return q
+    Read._verif_recorder = True
+    M.Read = Read
+
+
 def load_schemes():
-    """(library name, GroupLibrary) for every bundled library (live objects of $REPO)"""
-    warnings.filterwarnings('ignore')
-    import pgradd.ThermoChem  # noqa
-    from pgradd.GroupAdd.Library import GroupLibrary
-    from .gen import libs
-    return [(n, libs.load(n)) for n in libs.lib_names()]
+    """(library name, GroupLibrary) for every bundled library (live objects of $REPO), loaded with the text recorder on"""
+    global _LIBS
+    if _LIBS is None:
+        warnings.filterwarnings('ignore')
+        import pgradd.ThermoChem  # noqa
+        from pgradd.GroupAdd.Library import GroupLibrary
+        from .gen import libs
+        _install_text_recorder()
+        _LIBS = [(n, GroupLibrary.Load(n)) for n in libs.lib_names()]
+    return _LIBS
+
+
+def text_of(query):
+    """the RING text a live query object of a loaded scheme was read from"""
+    ent = _TEXT.get(id(query))
+    if ent is None or ent[0] is not query:
+        raise common.MachineryError('no recorded RING text for a scheme query object (scheme not loaded through lib_scheme.load_schemes?)')
+    return ent[1]
 
 
 # ----------------------------------------------------------------------------- independent normalisation
@@ -48,9 +82,11 @@ def benson_aromatize(mol):
             b.SetBondType(Chem.BondType.AROMATIC)
 
 
-def prepare(x):
-    """The molecule the properties talk about: explicit-H Kekulé graph with weak bonds as ZERO and Benson C6 rings
-    aromatic.  Computed with RDKit only.  Returns None when RDKit cannot parse the SMILES."""
+def prepare(x, aromatize=True):
+    """The molecule the properties talk about: explicit-H Kekulé graph with weak bonds as ZERO and (aromatize=True) Benson
+    C6 rings aromatic.  Computed with RDKit only.  Returns None when RDKit cannot parse the SMILES.
+    aromatize=False: the *raw* graph the Lean model `aromatizeBenson`/`decompose` starts from — the Python perception below
+    is not run, only RDKit's ring perception the code calls (`GetSymmSSSR`), so that the ring list is the one the code visits."""
     if isinstance(x, str):
         mol = Chem.MolFromSmiles(x)
         if mol is None:
@@ -63,8 +99,39 @@ def prepare(x):
     for b in mol.GetBonds():
         if str(b.GetBondType()) == 'UNSPECIFIED':
             b.SetBondType(Chem.BondType.ZERO)
-    benson_aromatize(mol)
+    if aromatize:
+        benson_aromatize(mol)
+    else:
+        Chem.GetSymmSSSR(mol)
     return mol
+
+
+def raw_graph(x):
+    """JSON graph (`lib_mol.mol_to_json`) of the normalised, NOT yet Benson-aromatised molecule, with the A-graph facts the
+    end-to-end model relies on re-checked: stability and consistency of the ring information (`lib_mol.check_graph`), the
+    ring list being exactly what `Chem.GetSymmSSSR` returns (the list `_aromatization_Benson` iterates), and the neighbour
+    order of every atom being its bond order.  None when RDKit cannot parse the input or the graph has a feature the model
+    does not represent."""
+    from . import lib_mol
+    mol = prepare(x, aromatize=False)
+    if mol is None:
+        return None
+    try:
+        g = lib_mol.mol_to_json(mol)
+    except lib_mol.UnsupportedGraph:
+        return None
+    bad = lib_mol.check_graph(mol, g)
+    if [list(r) for r in Chem.GetSymmSSSR(mol)] != g['rings']:
+        bad.append('AtomRings() differs from GetSymmSSSR()')
+    if lib_mol.mol_to_json(mol) != g:
+        bad.append('GetSymmSSSR() is not idempotent on the ring information')
+    for a in mol.GetAtoms():
+        i = a.GetIdx()
+        if [n.GetIdx() for n in a.GetNeighbors()] != [b.GetOtherAtomIdx(i) for b in a.GetBonds()]:
+            bad.append('GetNeighbors order != GetBonds order at %d' % i)
+    if bad:
+        raise common.MachineryError('A-graph check failed for %r: %s' % (x if isinstance(x, str) else Chem.MolToSmiles(x), bad[:3]))
+    return g
 
 
 def graph_key(x):
@@ -130,6 +197,42 @@ def scheme_input(scheme, mol, matcher=matches_of):
     remaps = [{'key': str(k), 'targets': [{'coef': common.jrat(common.frac_of_float(t[0])), 'name': str(t[1])} for t in v]}
               for k, v in scheme.remaps.items()]
     return {'op': 'c02.descriptors', 'n': n, 'nbrs': nbrs, 'centres': centres, 'descs': descs, 'remaps': remaps}
+
+
+_SJ = {}
+
+
+def remaps_json(scheme):
+    return [{'key': str(k), 'targets': [{'coef': common.jrat(common.frac_of_float(t[0])), 'name': str(t[1])} for t in v]}
+            for k, v in scheme.remaps.items()]
+
+
+def scheme_json(scheme):
+    """The scheme as the end-to-end model takes it: entries (names, order) from the live scheme object, each `connectivity`
+    as the parse tree the implementation's own parser makes of the recorded text, the remap table."""
+    from . import lib_ast
+    key = id(scheme)
+    ent = _SJ.get(key)
+    if ent is not None and ent[0] is scheme:
+        return ent[1]
+    trees = {}
+
+    def tree(q):
+        t = text_of(q)
+        if t not in trees:
+            trees[t] = lib_ast.parse_to_json(t)
+        return trees[t]
+    j = {'centres': [{'center': str(p['center_name']), 'periph': str(p['periph_name']), 'ast': tree(p['connectivity'])}
+                     for p in scheme.patterns],
+         'descs': [{'name': str(d['name']), 'ast': tree(d['connectivity'])} for d in scheme.other_descriptors],
+         'remaps': remaps_json(scheme)}
+    _SJ[key] = (scheme, j)
+    return j
+
+
+def full_request(scheme, graphs):
+    """one `c02.full_batch` request: the scheme once, the raw graphs of a batch of molecules"""
+    return {'op': 'c02.full_batch', 'scheme': scheme_json(scheme), 'mols': graphs}
 
 
 # ----------------------------------------------------------------------------- the declarative interpretation (spec oracle)
